@@ -5,7 +5,7 @@
 use crate::elem::{self, Elem};
 use crate::fence::{self, HarnessScope, TrackedScope};
 use crate::reg::{self, Cb};
-use any_vec::any_value::{AnyValue, AnyValueMut, AnyValueRaw, AnyValueTypeless, AnyValueTypelessMut, AnyValueWrapper};
+use any_vec::any_value::{AnyValue, AnyValueMut, AnyValueRaw, AnyValueSizelessRaw, AnyValueTypeless, AnyValueTypelessMut, AnyValueTypelessRaw, AnyValueWrapper};
 use any_vec::element::Element;
 use any_vec::mem::MemBuilder;
 use any_vec::ops::{Drain, Pop, Remove, Splice, SwapRemove};
@@ -344,6 +344,9 @@ impl<C: Config> World<C> {
                     "wrapper" => self.v(x).push(AnyValueWrapper::new(val)),
                     "typed" => self.v(x).downcast_mut::<C::E>().expect("driver: type").push(val),
                     "raw" => self.with_raw(val, |w, raw| w.v(x).push(raw)),
+                    // the *_unchecked entry points with values that do not know their type (resp. size)
+                    "typeless" => self.with_raw_ptr(val, |w, p| unsafe { w.v(x).push_unchecked(AnyValueTypelessRaw::new(p, C::E::SZ)) }),
+                    "sizeless" => self.with_raw_ptr(val, |w, p| unsafe { w.v(x).push_unchecked(AnyValueSizelessRaw::new(p)) }),
                     s => panic!("driver: bad src {}", s),
                 }
             }
@@ -354,6 +357,8 @@ impl<C: Config> World<C> {
                     "wrapper" => self.v(x).insert(i, AnyValueWrapper::new(val)),
                     "typed" => self.v(x).downcast_mut::<C::E>().expect("driver: type").insert(i, val),
                     "raw" => self.with_raw(val, |w, raw| w.v(x).insert(i, raw)),
+                    "typeless" => self.with_raw_ptr(val, |w, p| unsafe { w.v(x).insert_unchecked(i, AnyValueTypelessRaw::new(p, C::E::SZ)) }),
+                    "sizeless" => self.with_raw_ptr(val, |w, p| unsafe { w.v(x).insert_unchecked(i, AnyValueSizelessRaw::new(p)) }),
                     s => panic!("driver: bad src {}", s),
                 }
             }
@@ -532,6 +537,11 @@ impl<C: Config> World<C> {
                     "iter_mut" => ItK::Mut(v.iter_mut()),
                     "titer" => ItK::TRef(v.downcast_ref::<C::E>().expect("driver: type").iter()),
                     "titer_mut" => ItK::TMut(v.downcast_mut::<C::E>().expect("driver: type").iter_mut()),
+                    // the IntoIterator impls of &AnyVec, &mut AnyVec, AnyVecRef, AnyVecMut
+                    "into_ref" => { let r: &'static V<C> = v; ItK::Ref(r.into_iter()) }
+                    "into_mut" => ItK::Mut(v.into_iter()),
+                    "tinto_ref" => ItK::TRef(v.downcast_ref::<C::E>().expect("driver: type").into_iter()),
+                    "tinto_mut" => ItK::TMut(v.downcast_mut::<C::E>().expect("driver: type").into_iter()),
                     k => panic!("driver: bad iter kind {}", k),
                 };
                 out.hint = Self::it_hint(&it);
@@ -843,6 +853,17 @@ impl<C: Config> World<C> {
         let r = catch_unwind(AssertUnwindSafe(|| f(self, raw)));
         match r {
             Ok(()) => drop(b), // frees the box, not the element (it now lives in the vector)
+            Err(p) => { self.ext.push(ManuallyDrop::into_inner(*b)); std::panic::resume_unwind(p); }
+        }
+    }
+
+    /// like with_raw, for the typeless / sizeless raw handles of the *_unchecked entry points
+    fn with_raw_ptr(&mut self, val: C::E, f: impl FnOnce(&mut Self, NonNull<u8>)) {
+        let b: Box<ManuallyDrop<C::E>> = { let _h = HarnessScope::new(); Box::new(ManuallyDrop::new(val)) };
+        let p = unsafe { NonNull::new_unchecked(&**b as *const C::E as *mut u8) };
+        let r = catch_unwind(AssertUnwindSafe(|| f(self, p)));
+        match r {
+            Ok(()) => drop(b),
             Err(p) => { self.ext.push(ManuallyDrop::into_inner(*b)); std::panic::resume_unwind(p); }
         }
     }
